@@ -27,18 +27,19 @@
  "tier_after_hooks": "quick",
  "harness": "h_edit_feature2",
  "defines": ["NO_KEYWORD=1"],
- "replace": ["e2p_string2feature"],
+ "replace": ["e2p_string2feature", "skip_over_blanks", "skip_over_word"],
  "loop_contracts": true,
  "unwind": 10,
  "cbmc_flags": ["--object-bits", "10"],
- "unwind_reason": "the word loop is cut by its in-place loop contract (named anchor VERIF_INV_E2P_EDIT_FEATURE2_WORDS); skip_over_blanks/skip_over_word/strlen/strcpy run over the request string, capped at 7 characters (see assumes); DFCC library loops",
+ "unwind_reason": "the word loop is cut by its in-place loop contract (named anchor VERIF_INV_E2P_EDIT_FEATURE2_WORDS); strlen/strcpy run over the request string, capped at 7 characters (see assumes); DFCC library loops",
  "functions": ["lib/e2p/feature.c:e2p_edit_feature2"],
  "assumes": [
   "NEEDS the hook in hooks-pending/tune.diff (named loop anchor in lib/e2p/feature.c)",
-  "request string of at most 7 characters, arbitrary content (the cap only bounds the character loops that find the word boundaries; which feature a word names is decided by the replaced e2p_string2feature, arbitrarily)",
+  "request string of exactly 7 characters, arbitrary content incl. blanks and commas (shorter requests: pad with separators) (the cap only bounds strlen/strcpy of the private copy; where words end and which feature a word names is decided arbitrarily by the replaced helpers)",
   "both masks given (non-null), arbitrary content; feature words arbitrary; type_err / mask_err given",
   "no word equals the keyword none/clear (strcasecmp against a string literal answers 'different'); unit tune_e2p_edit_feature2 drops this",
-  "character classification (isspace) arbitrary; malloc succeeds (a failing malloc returns 1 before anything is touched)"
+  "skip_over_blanks / skip_over_word (same file) by contract: they return SOME position between their argument and the terminating NUL of the request copy (over-approximation of every classification of characters)",
+  "malloc succeeds (a failing malloc returns 1 before anything is touched)"
  ],
  "native": false,
  "timeout": 600
@@ -51,7 +52,7 @@
  "level": "U/iter",
  "tier": "wip",
  "harness": "h_edit_feature2",
- "replace": ["e2p_string2feature"],
+ "replace": ["e2p_string2feature", "skip_over_blanks", "skip_over_word"],
  "loop_contracts": true,
  "unwind": 10,
  "cbmc_flags": ["--object-bits", "10"],
@@ -93,28 +94,32 @@ unsigned int nondet_uint(void);
 
 #define VERIF_INV_E2P_EDIT_FEATURE2_WORDS \
 	__CPROVER_assigns(cp, next, neg, mask, compat_type, rc, __CPROVER_object_whole(buf), \
-			  __CPROVER_object_whole(compat_array), *type_err, *mask_err, verif_g4) \
+			  __CPROVER_object_whole(compat_array), *type_err, *mask_err, verif_g4, verif_g5) \
 	__CPROVER_loop_invariant(cp == 0 || (__CPROVER_same_object(cp, buf) && __CPROVER_POINTER_OFFSET(cp) <= verif_g0)) \
 	__CPROVER_loop_invariant(buf[verif_g0] == 0) \
 	__CPROVER_loop_invariant(rc == 0 && *type_err == 0 && *mask_err == 0) \
 	__CPROVER_loop_invariant(E1_WORD(0, verif_g1) && E1_WORD(1, verif_g2) && E1_WORD(2, verif_g3))
 
 int e2p_string2feature(char *string, int *compat_type, unsigned int *mask);
+static char *skip_over_blanks(char *cp);
+static char *skip_over_word(char *cp);
 
 #include "lib/e2p/feature.c"
+
+/* word boundaries: some position between cp and the terminating NUL of the request copy (verif_g5 = distance, arbitrary);
+ * the content of the words is irrelevant here (e2p_string2feature and strcasecmp answer arbitrarily) */
+#define SKIP_CONTRACT \
+	REQUIRES(__CPROVER_POINTER_OFFSET(cp) <= verif_g0 && __CPROVER_OBJECT_SIZE(cp) == verif_g0 + 1) \
+	ASSIGNS(verif_g5) \
+	ENSURES(verif_g5 <= verif_g0 - __CPROVER_POINTER_OFFSET(cp) && __CPROVER_pointer_equals(RET, cp + verif_g5))
+static char *skip_over_blanks(char *cp) SKIP_CONTRACT;
+static char *skip_over_word(char *cp) SKIP_CONTRACT;
 
 /* arbitrary feature, or "no such word"; verif_g4 counts the calls (independent draws inside the cut loop) */
 int e2p_string2feature(char *string, int *compat_type, unsigned int *mask)
 	ASSIGNS(*compat_type, *mask, verif_g4)
 	ENSURES(RET != 0 || (*compat_type >= 0 && *compat_type <= 2));
 
-static unsigned short CT[384];
-static const unsigned short *CTP;
-const unsigned short **__ctype_b_loc(void)
-{
-	CTP = CT + 128;
-	return &CTP;
-}
 int strcasecmp(const char *s1, const char *s2)
 {
 #ifdef NO_KEYWORD
@@ -126,6 +131,8 @@ int strcasecmp(const char *s1, const char *s2)
 #ifndef VERIF_NATIVE
 void *malloc(size_t n) { return __CPROVER_allocate(n, 0); }
 #endif
+/* the request string has exactly 7 characters (harness): a literal length keeps the private copy a fixed-size object */
+size_t strlen(const char *s) { return 7; }
 
 void h_edit_feature2(void)
 {
@@ -138,14 +145,16 @@ void h_edit_feature2(void)
 	for (t = 0; t < 8; t++)
 		str[t] = IN.str[t];
 	str[7] = 0;
+	for (t = 0; t < 7; t++)
+		ASSUME(str[t] != 0);
 	for (t = 0; t < 3; t++) {
 		feat[t] = IN.feat[t];
 		ok[t] = IN.ok[t];
 		clear_ok[t] = IN.clear_ok[t];
 	}
-	verif_g0 = strlen(str);
+	verif_g0 = 7;
 	verif_g1 = feat[0]; verif_g2 = feat[1]; verif_g3 = feat[2];
-	verif_g4 = 0;
+	verif_g4 = verif_g5 = 0;
 	type_err = -1;
 	mask_err = 0;
 
